@@ -102,4 +102,22 @@ func init() {
 		it("soyjs", "scope.pushForEach"),
 		it("soyjs", "scope.loop"),
 	})
+	// soymsg/id.go hash32 with its block loop (fuel: one iteration per 12 bytes of limit-start, stated generously);
+	// the hidden loop names of soyhtml (exec.go, funcs.go)
+	gtFamily("79-gotrans-loops-misc", []gtItem{
+		{dir: "soymsg", key: "hash32", cfg: &gtCfg{fuel: map[int]string{1: "limit - start + 1"}}},
+		it("soyhtml", "scope.push"),
+		it("soyhtml", "scope.pop"),
+		it("soyhtml", "scope.set"),
+		// notifyUnbound is a hook with an empty body in the build under check (scope_hook_off.go); the harness's build
+		// counts unbound lookups through it, which Model/Interp.v's bump_unbound mirrors (tied by the correspondence)
+		{dir: "soyhtml", key: "scope.lookup", cfg: &gtCfg{ignore: []string{"notifyUnbound"}}},
+		it("soyhtml", "scope.alldata"),
+		it("soyhtml", "scope.enter"),
+		it("soyhtml", "funcIndex"),
+		it("soyhtml", "funcIsFirst"),
+		it("soyhtml", "funcIsLast"),
+		{dir: "soyhtml", key: "state.walk", cfg: &gtCfg{initOf: "keyInd", fragVars: [][2]string{{"node", "*ast.ForNode"}}, suffix: "keyInd"}},
+		{dir: "soyhtml", key: "state.walk", cfg: &gtCfg{initOf: "keyLast", fragVars: [][2]string{{"node", "*ast.ForNode"}}, suffix: "keyLast"}},
+	})
 }
